@@ -193,6 +193,7 @@ MUTANTS = [
     M('astx:prefix:tilde-is-logical-not', 'astx', ['C05', 'C06'], 'ast::PrefixExpr::op_kind', 'T![~] => UnaryOp::Not,', 'T![~] => UnaryOp::LogicNot,'),
     M('astx:literal:false-is-true', 'astx', ['C05', 'C06'], 'ast::Literal::kind', 'T![false] => LiteralKind::Bool(false),', 'T![false] => LiteralKind::Bool(true),'),
     M('astx:literal:bitstring-is-string', 'astx', ['C05', 'C06'], 'ast::Literal::kind', 'if let Some(t) = ast::String::cast(token.clone()) {', 'if let Some(t) = ast::String::cast(token.clone()).or(ast::BitString::cast(token.clone()).map(|b| ast::String { syntax: b.syntax })) {'),
+    M('astx:indexed-identifier:base-is-none', 'astx', ['C05', 'C06'], 'ast::IndexedIdentifier::identifier', 'support::child(&self.syntax)', 'None'),
     # ---- LEX extents
     M('lex:line_comment:stops-at-space', 'lex', ['C15', 'C14'], "Cursor<'_>::line_comment", "{ c != '\\n' });", "{ c != '\\n' && c != ' ' });"),
     M('lex:eat_identifier:start-test-inverted', 'lex', ['C15'], "Cursor<'_>::eat_identifier", 'if !is_id_start(self.first()) {', 'if is_id_start(self.first()) {'),
